@@ -218,7 +218,7 @@ def r02_4(ck, F):
                 ok = ar is not None and ar[0] == "Sub" and mir.calls_in(ar[2], "std::cmp::Ord::min") and \
                     any("credits" in mir.show(l) for l in _min_leaves(ar[2]))
             elif who == "try_request":
-                ce = [switch_expr(b, sw) for sw, tb, v in controlling_edges(b, bb) if switch_meaning(b, sw, v) is True]
+                ce = [e_ for e_, m_ in conds(b, bb) if m_ is True]
                 ok = ar is not None and ar[0] == "Sub" and "req" in mir.paths_in(ar[2]) and \
                     any(e[0] == "bin" and e[1] == "Ge" and "req" in mir.paths_in(e[3]) for e in ce)
             elif who == "provide":
@@ -244,7 +244,7 @@ def r02_5(ck, F):
     sites = [(b, bb, i) for b in F.by_dp.values() if b.crate == "remoc" for bb, i, rv in b.aggregates(UC)]
     for b, bb, i in sites:
         in_fn = mir.strip_generics(b.path) == "chmux::credit::ChannelCreditMonitor::use_credits"
-        ce = [switch_expr(b, sw) for sw, tb, v in controlling_edges(b, bb) if switch_meaning(b, sw, v) is True]
+        ce = [e_ for e_, m_ in conds(b, bb) if m_ is True]
         guarded = any(e[0] == "bin" and e[1] == "Le" and "limit" in mir.show(e[3]) for e in ce)
         ck.expect(in_fn and guarded, f"UsedCredit#construct@{mir.strip_generics(b.path)}",
                   "constructed in use_credits under new_used <= limit",
@@ -267,7 +267,9 @@ def r02_5(ck, F):
     zero = [(bb, i) for bb, i, e in tor if const_value(e) == 0]
     for bb, i, rv in b.aggregates(PORT_EVT, "ReturnCredits"):
         amt = b.expr(rv["ops"][rv["fields"].index("credits")])
-        ok = amt == ("path", "self.to_return") and any(b.find_path([bb], [z]) and b.dominates(bb, z) for z, _ in zero)
+        taken = amt[0] == "call" and amt[1] in ("std::mem::take", "std::mem::replace") and amt[2] and \
+            mir.last_field(amt[2][0]) == "to_return" and (amt[1].endswith("take") or const_value(amt[2][1]) == 0)
+        ok = taken or (amt == ("path", "self.to_return") and any(b.find_path([bb], [z]) and b.dominates(bb, z) for z, _ in zero))
         ck.expect(ok, "start_return#send-and-zero", "ReturnCredits carries to_return, which is then zeroed",
                   f"ReturnCredits.credits = {mir.show(amt)} / to_return not reset after sending", b.loc(bb, i))
     # call sites of start_return
@@ -302,7 +304,7 @@ def r02_6(ck, F):
     for k, (bb, t) in enumerate(uses):
         amt = b.expr(t["a"][1])
         sh = mir.show(amt)
-        ce = [switch_expr(b, sw) for sw, tb, v in controlling_edges(b, bb) if switch_meaning(b, sw, v) is True]
+        ce = [e_ for e_, m_ in conds(b, bb) if m_ is True]
         guarded = any(e[0] == "bin" and e[1] == "Le" and any(p.endswith("local_cfg.chunk_size") for p in mir.paths_in(e[3])) for e in ce)
         is_data = any(c[1] == "bytes::Bytes::len" for c in mir.calls_in(amt))
         is_ports = any(c[1] == "std::vec::Vec::len" for c in mir.calls_in(amt)) or "checked_mul" in sh
